@@ -217,6 +217,11 @@ func checkC04(c *Ctx) {
 	for _, stream := range escapeOffsetDocs(r, c.Thorough()) {
 		add("escape-offset", stream)
 	}
+	// (10) a long string (with and without escapes) arriving after other keys and strings:
+	// every string of the document must still be exposed exactly
+	for _, d := range longStringDocs(r) {
+		add("long-string-after-others", d)
+	}
 	// (8) truncated escapes right before the closing quote
 	for _, esc := range []string{`\`, `\u`, `\u0`, `\u00`, `\u004`, `\ud83d`, `\ud83d\`, `\ud83d\u`, `\ud83d\ud`, `\ud83d\ude`, `\ud83d\ude0`} {
 		for off := 0; off < 64; off += 3 {
